@@ -102,6 +102,308 @@ func runC09(c *core.Ctx, r *core.Reporter) {
 	c09rel(c, r)
 	c09fmt(c, r)
 	c09div(c, r)
+	c09assert(c, r)
+	c09nilok(c, r)
+}
+
+// c09nilok: v, _ := x.(*T) yields nil when x is something else; v must be nil-tested before it is used.
+func c09nilok(c *core.Ctx, r *core.Reporter) {
+	const rule = "C09.nilok"
+	r.Rule(rule, "a pointer obtained from a comma-ok type assertion whose ok result is discarded (v, _ := x.(*T)) is dereferenced (field access, method call) only where a comparison v != nil holds on every path: for any other Lisp value v is nil and the dereference is a Go run-time panic", 10)
+	an := lenflow.New(c)
+	seen := map[string]int{}
+	for _, fn := range c.ModuleFuncs() {
+		if takesTestingT(fn) || fn.Pkg == nil {
+			continue
+		}
+		var g *core.Guards
+		for _, b := range fn.Blocks {
+			for _, in := range b.Instrs {
+				ta, ok := in.(*ssa.TypeAssert)
+				if !ok || !ta.CommaOk {
+					continue
+				}
+				if _, isPtr := ta.AssertedType.Underlying().(*types.Pointer); !isPtr {
+					continue
+				}
+				var val *ssa.Extract
+				okUsed := false
+				for _, rf := range *ta.Referrers() {
+					if ex, isEx := rf.(*ssa.Extract); isEx {
+						if ex.Index == 0 {
+							val = ex
+						} else if refs := ex.Referrers(); refs != nil && len(*refs) > 0 {
+							okUsed = true
+						}
+					}
+				}
+				if val == nil || okUsed {
+					continue
+				}
+				key := fmt.Sprintf("%s|%s", core.SSAName(fn), types.TypeString(ta.AssertedType, func(pk *types.Package) string { return pk.Name() }))
+				seen[key]++
+				if n := seen[key]; n > 1 {
+					key = fmt.Sprintf("%s#%d", key, n)
+				}
+				if g == nil {
+					g = core.ComputeGuards(fn, an.NoReturn)
+				}
+				bad := ""
+				// the value may pass through phis (loop variables); follow one level
+				vals := map[ssa.Value]bool{val: true}
+				for _, rf := range *val.Referrers() {
+					if ph, isPhi := rf.(*ssa.Phi); isPhi {
+						vals[ph] = true
+					}
+				}
+				for v := range vals {
+					refs := v.Referrers()
+					if refs == nil {
+						continue
+					}
+					for _, rf := range *refs {
+						deref := false
+						switch x := rf.(type) {
+						case *ssa.FieldAddr:
+							deref = x.X == v
+						case *ssa.Field:
+							deref = x.X == v
+						case *ssa.UnOp:
+							deref = x.Op == token.MUL && x.X == v
+						case *ssa.Call:
+							deref = len(x.Call.Args) > 0 && x.Call.Args[0] == v && x.Call.StaticCallee() != nil && x.Call.StaticCallee().Signature.Recv() != nil
+						}
+						if !deref {
+							continue
+						}
+						if !nonNilAt(g, v, rf.Block(), nil, 0) {
+							bad = fmt.Sprintf("dereferenced at %s without a nil test on every path", c.Pos(rf.Pos()))
+						}
+					}
+				}
+				r.Decide(bad == "", rule, key, c.Pos(ta.Pos()), orOKs(bad, "nil-tested before every dereference"))
+			}
+		}
+	}
+}
+
+// nonNilAt: v is known to be non-nil at the start of block b (extra: the branch edge just taken, if any):
+// a comparison with nil holds on every path, or v is a phi all of whose incoming values are non-nil at the
+// end of their predecessor, or v is an address or a fresh allocation.
+func nonNilAt(g *core.Guards, v ssa.Value, b *ssa.BasicBlock, extra *core.EdgeFact, depth int) bool {
+	if depth > 4 {
+		return false
+	}
+	facts := g.Facts(b)
+	if extra != nil {
+		f2 := map[core.EdgeFact]bool{*extra: true}
+		for f := range facts {
+			f2[f] = true
+		}
+		facts = f2
+	}
+	if nonNilByFacts(v, facts) {
+		return true
+	}
+	switch x := v.(type) {
+	case *ssa.Alloc, *ssa.FieldAddr, *ssa.IndexAddr, *ssa.MakeClosure:
+		return true
+	case *ssa.Phi:
+		pb := x.Block()
+		for i, e := range x.Edges {
+			if i >= len(pb.Preds) {
+				return false
+			}
+			pred := pb.Preds[i]
+			if g.Facts(pred) == nil || g.Dead[pred] || e == ssa.Value(x) {
+				continue
+			}
+			var ef *core.EdgeFact
+			if ifi, ok := pred.Instrs[len(pred.Instrs)-1].(*ssa.If); ok && len(pred.Succs) == 2 && pred.Succs[0] != pred.Succs[1] {
+				ef = &core.EdgeFact{If: ifi, Branch: pred.Succs[0] == pb}
+			}
+			if !nonNilAt(g, e, pred, ef, depth+1) {
+				return false
+			}
+		}
+		return true
+	}
+	return false
+}
+
+func nonNilByFacts(v ssa.Value, facts map[core.EdgeFact]bool) bool {
+	isNil := func(x ssa.Value) bool {
+		k, ok := x.(*ssa.Const)
+		return ok && k.Value == nil
+	}
+	for f := range facts {
+		bo, ok := f.If.Cond.(*ssa.BinOp)
+		if !ok {
+			continue
+		}
+		if !((bo.X == v && isNil(bo.Y)) || (bo.Y == v && isNil(bo.X))) {
+			continue
+		}
+		if (bo.Op == token.NEQ && f.Branch) || (bo.Op == token.EQL && !f.Branch) {
+			return true
+		}
+	}
+	return false
+}
+
+const ruleAssert = "C09.assert"
+
+// listElemLoad: v is a load of an element of a list that is a parameter of the function (or a reslice of one).
+func listElemLoad(v ssa.Value) (*ssa.IndexAddr, *ssa.Parameter, bool) {
+	u, ok := v.(*ssa.UnOp)
+	if !ok || u.Op != token.MUL {
+		return nil, nil, false
+	}
+	ia, ok := u.X.(*ssa.IndexAddr)
+	if !ok {
+		return nil, nil, false
+	}
+	base := ia.X
+	for i := 0; i < 4; i++ {
+		if sl, ok := base.(*ssa.Slice); ok {
+			base = sl.X
+			continue
+		}
+		break
+	}
+	p, ok := base.(*ssa.Parameter)
+	if !ok || !isObjectSlice(p.Type()) {
+		return nil, nil, false
+	}
+	return ia, p, true
+}
+
+// sameElem: two loads denote the same list element: the same SSA value, or loads of the same slot
+// (same base value, same constant index).
+func sameElem(a, b ssa.Value) bool {
+	if a == b {
+		return true
+	}
+	ia, _, ok1 := listElemLoad(a)
+	ib, _, ok2 := listElemLoad(b)
+	if !ok1 || !ok2 || ia.X != ib.X {
+		return false
+	}
+	ka, oka := ia.Index.(*ssa.Const)
+	kb, okb := ib.Index.(*ssa.Const)
+	return oka && okb && ka.Value != nil && kb.Value != nil && constant.Compare(ka.Value, token.EQL, kb.Value)
+}
+
+// c09assert: single-result type assertions on elements of a list parameter.
+func c09assert(c *core.Ctx, r *core.Reporter) {
+	r.Rule(ruleAssert, "every single-result type assertion x.(T) whose operand is an element loaded from a list parameter of the function (its argument list, or a list handed in by its caller) is reached only through the success edge of a comma-ok assertion or type-switch case of the same element to T (or to a type that implies T): a failed single-result assertion is a Go run-time panic (interface conversion), not a Lisp condition", 20)
+	an := lenflow.New(c)
+	seen := map[string]int{}
+	for _, fn := range c.ModuleFuncs() {
+		if takesTestingT(fn) || fn.Pkg == nil {
+			continue
+		}
+		var g *core.Guards
+		// comma-ok assertions in this function
+		var tests []*ssa.TypeAssert
+		for _, b := range fn.Blocks {
+			for _, in := range b.Instrs {
+				if ta, ok := in.(*ssa.TypeAssert); ok && ta.CommaOk {
+					tests = append(tests, ta)
+				}
+			}
+		}
+		for _, b := range fn.Blocks {
+			for _, in := range b.Instrs {
+				ta, ok := in.(*ssa.TypeAssert)
+				if !ok || ta.CommaOk {
+					continue
+				}
+				ia, p, ok := listElemLoad(ta.X)
+				if !ok {
+					continue
+				}
+				idx := "i"
+				if k, isK := ia.Index.(*ssa.Const); isK && k.Value != nil {
+					idx = k.Value.ExactString()
+				}
+				key := fmt.Sprintf("%s|%s[%s].(%s)", core.SSAName(fn), p.Name(), idx, types.TypeString(ta.AssertedType, func(pk *types.Package) string { return pk.Name() }))
+				seen[key]++
+				if n := seen[key]; n > 1 {
+					key = fmt.Sprintf("%s#%d", key, n)
+				}
+				if g == nil {
+					g = core.ComputeGuards(fn, an.NoReturn)
+				}
+				facts := g.Facts(b)
+				proven := false
+				for _, t2 := range tests {
+					if !sameElem(t2.X, ta.X) {
+						continue
+					}
+					if !types.Identical(t2.AssertedType, ta.AssertedType) && !types.AssignableTo(t2.AssertedType, ta.AssertedType) {
+						continue
+					}
+					// the ok result must be true on every path here
+					for _, rf := range *t2.Referrers() {
+						ex, ok := rf.(*ssa.Extract)
+						if !ok || ex.Index != 1 {
+							continue
+						}
+						for f := range facts {
+							if f.If.Cond == ssa.Value(ex) && f.Branch {
+								proven = true
+							}
+						}
+					}
+				}
+				if proven {
+					r.Hold(ruleAssert, key, c.Pos(ta.Pos()), "dominated by a successful type test of the same element")
+					continue
+				}
+				if ex, ok := assertExceptions[key]; ok {
+					r.Hold(ruleAssert, key, c.Pos(ta.Pos()), "accepted by reading: "+ex)
+					continue
+				}
+				if why, ok := assertNotJudged[key]; ok {
+					r.Infof("not judged %s %s at %s: %s", ruleAssert, key, c.Pos(ta.Pos()), why)
+					continue
+				}
+				r.Violate(ruleAssert, key, c.Pos(ta.Pos()), "no successful type test of this element dominates the assertion")
+			}
+		}
+	}
+}
+
+const mapValidated = "an earlier loop over the same arguments asserts each one with comma-ok and raises a type error otherwise; elements of the argument slice are not reassigned in between"
+
+var assertExceptions = map[string]string{
+	"pkg/cl.(Mapc).Call|args[i].(slip.List)":                  mapValidated,
+	"pkg/cl.(Mapcan).Call|args[i].(slip.List)":                mapValidated,
+	"pkg/cl.(Mapcar).Call|args[i].(slip.List)":                mapValidated,
+	"pkg/cl.(Mapcon).Call|args[i].(slip.List)":                mapValidated,
+	"pkg/cl.(Mapl).Call|args[i].(slip.List)":                  mapValidated,
+	"pkg/cl.(Maplist).Call|args[i].(slip.List)":               mapValidated,
+	"pkg/cl.(Ecase).Call|args[i].(slip.List)":                 "the first loop validates every clause as a non-empty list (TypePanic otherwise) before this loop runs",
+	"pkg/cl.(Etypecase).Call|args[i].(slip.List)":             "as ecase: the first loop validates every clause",
+	"pkg/cl.(Rotatef).Call|args[i].(slip.Placer)":             "the first loop raises a type error for every argument that is not a Placer",
+	"pkg/cl.(Rotatef).Call|args[i].(slip.Placer)#2":           "as the line above",
+	"pkg/cl.(Shiftf).Call|args[i].(slip.Placer)":              "the first loop raises a type error for every argument that is not a Placer",
+	"pkg/cl.(Shiftf).Call|args[0].(slip.Placer)":              "as the line above",
+	"pkg/gi.(Select).Call|args[i].(slip.List)":                "prepClauses is called first and raises a type error for any clause that is not a non-empty list",
+	"pkg/gi.(Select).reflectClauses|clauses[i].(slip.List)":   "only called from Select.Call after prepClauses validated every clause",
+	"pkg/gi.(Select).reflectClauses|clauses[i].(slip.List)#2": "as the line above",
+	"slip.(BitVector).Adjust|initContent[i].(slip.Integer)":   "an earlier loop in the same function raises a type error unless every element is the integer 0 or 1",
+	"slip.(Octets).Adjust|initContent[i].(slip.Integer)":      "an earlier loop in the same function raises a type error unless every element is an integer in 0..255",
+	"pkg/cl.replaceTree|subs[i].(slip.List)":                  "nsublis validates the association list (every element a cons) before walking the tree: (nsublis '(1) '(a)) signals a type error",
+	"pkg/cl.subTree|subs[i].(slip.List)":                      "sublis validates the association list before walking the tree: (sublis '(1) '(a)) signals a type error",
+	"pkg/net.filterSocketList|list[i].(*flavors.Instance)":    "the same lists were validated element by element by setSocketSets a few lines earlier in socket-select",
+}
+
+var assertNotJudged = map[string]string{
+	"pkg/cl.(WriteByte).Call|args[1].(slip.Stream)": "reached only when Write fails on an io.Writer that is not a slip.Stream; no such Lisp object was found",
+	"pkg/watch.formError|list[3].(slip.String)":    "operand is a message received from a watch server over the network, not Lisp-level input of this interpreter; not reproduced",
+	"pkg/watch.formError|list[2].(slip.Symbol)":    "as the line above",
 }
 
 const ruleDiv = "C09.div"
